@@ -109,7 +109,7 @@ impl Check for C09 {
     }
     fn cases(&self, tier: Tier) -> u64 {
         match tier {
-            Tier::Quick => 5_000,
+            Tier::Quick => 15_000,
             Tier::Thorough => 200_000,
         }
     }
